@@ -15,7 +15,7 @@ META = {
             "(hence not depend on the form) and that of a hand-assembled reference circuit of the documented construction with k = ceil(pi/4 sqrt(N/M)) iterations, (ii) rank every solution above every non-solution, (iii) give the solutions total probability > 1/2, "
             "and (iv) decode_output of each solution string is the solution in the argument type. A form whose expressions do not denote S is "
             "skipped (C01's matter). Non-trivial = |S| >= 2 or a non-integer argument type; distinct = distinct (n, S, form).",
-    "bound": {"quick": "n=2,3 all sets (40), n=4 |S|<=2 (136); 13 forms (equalities, minterms, tables, tuples, lists, modular arithmetic; value search with int, falsy, bool and Qint-instance targets) x profiles", "thorough": "n=4 all 2516 sets, n=5 |S|<=2 (528 sets)"},
+    "bound": {"quick": "n=2,3 all sets (40), n=4 |S|<=2 (136); 14 forms (equalities, minterms, tables, tuples, lists, modular arithmetic; value search with int, falsy, bool and Qint-instance targets) x profiles", "thorough": "n=4 all 2516 sets, n=5 |S|<=2 (528 sets)"},
     "assumptions": ["svsim.sparse_run (cross-checked against the dense simulator) is the meaning of the circuit",
                     "the ideal oracle (X-conjugated MCX per solution) is the reference black box; n_matching=|S| and the default iteration count are used"],
     "explanation": "states = Grover instances built by the real constructor on a freshly compiled predicate; transitions = basis outcomes compared.",
@@ -45,7 +45,7 @@ def shards(tier):
     return out
 
 
-FORMS = ["eq", "dnf", "table", "tuple", "qlist", "value", "value_tuple", "value_zero", "pred_false", "arith", "arith_rev", "value_qint1", "value_qint2"]
+FORMS = ["eq", "dnf", "table", "tuple", "qlist", "value", "value_tuple", "value_zero", "pred_false", "arith", "arith_rev", "tuple_ne", "value_qint1", "value_qint2"]
 
 
 def cases(shard):
@@ -92,6 +92,11 @@ def source(n, S, form):
     if form == "arith":
         # several expressions and recycled scratch qubits: modular subtraction compared with a constant
         return "def tfun(x: Qint[%d]) -> bool:\n    return %s\n" % (n, " or ".join("(x - %d) < 1" % s for s in S)), None, "int"
+    if form == "tuple_ne":
+        # the argument compared as a whole tuple with a tuple literal through !=
+        t = "Tuple[%s]" % ", ".join(["bool"] * n)
+        lit = lambda v: "(" + ", ".join("True" if (v >> i) & 1 else "False" for i in range(n)) + ")"  # noqa: E731
+        return "def tfun(x: %s) -> bool:\n    return %s\n" % (t, " or ".join("not (x != %s)" % lit(v) for v in S)), None, "tuple"
     if form == "arith_rev":
         # the constant on the left of the subtraction (narrower than the register for small s)
         return "def tfun(x: Qint[%d]) -> bool:\n    return %s\n" % (n, " or ".join("(%d - x) == 0" % s for s in S)), None, "int"
